@@ -185,6 +185,8 @@ class Engine:
         return st.heap.get((id(obj), key), _MISSING)
 
     def heap_set(self, st, obj, key, val):
+        # copy-on-write: states that were derived from one another without a fork may share the dict object
+        st.heap = dict(st.heap)
         st.heap[(id(obj), key)] = (obj, val)
         st.hver += 1
         G.stats['heap_writes'] = G.stats.get('heap_writes', 0) + 1
